@@ -74,7 +74,7 @@ func zvC10Build(addPath bool) *zvC10World {
 	return &zvC10World{aro: aro, conn: conn, us: f.updateSender}
 }
 
-func zvC10Histories(thorough bool) [][]zvC10Op {
+func zvC10Histories(thorough, addPath bool) [][]zvC10Op {
 	alpha := []zvC10Op{{"add", 0, 1}, {"remove", 0, 1}, {"add", 0, 2}, {"remove", 0, 2}, {"add", 1, 1}}
 	var out [][]zvC10Op
 	var rec func(h []zvC10Op, n int)
@@ -112,6 +112,18 @@ func zvC10Histories(thorough bool) [][]zvC10Op {
 				}
 				if present {
 					continue
+				}
+				if !addPath {
+					// a best-path-only client holds at most one path per prefix: the Loc-RIB withdraws the old best before it announces the new one
+					held := map[int]bool{}
+					for _, x := range h {
+						if x.Pfx == o.Pfx {
+							held[x.Path] = x.Kind == "add"
+						}
+					}
+					if held[1] || held[2] {
+						continue
+					}
 				}
 			}
 			rec(append(h, o), n-1)
@@ -249,7 +261,7 @@ func TestVerifC10(t *testing.T) {
 	}
 	idx := 0
 	for _, ap := range []bool{false, true} {
-		for _, h := range zvC10Histories(r.Thorough()) {
+		for _, h := range zvC10Histories(r.Thorough(), ap) {
 			idx++
 			if !r.Mine(idx) {
 				continue
